@@ -14,44 +14,47 @@
 (***************************************************************************)
 EXTENDS Stream, TraceBase
 
-VARIABLES l, src, pos, pos0, rfault, want, delivered, wfault
-vars == <<l, src, pos, pos0, rfault, want, delivered, wfault>>
+\* lend: where the line that the current Frame::read call must consume ends (computed once per call)
+VARIABLES l, src, pos, pos0, lend, rfault, want, delivered, wfault
+vars == <<l, src, pos, pos0, lend, rfault, want, delivered, wfault>>
 
-Init == l = 1 /\ src = <<>> /\ pos = 0 /\ pos0 = 0 /\ rfault = FALSE /\ want = <<>> /\ delivered = <<>> /\ wfault = FALSE
+Init == l = 1 /\ src = <<>> /\ pos = 0 /\ pos0 = 0 /\ lend = 0 /\ rfault = FALSE /\ want = <<>> /\ delivered = <<>> /\ wfault = FALSE
 
 E == Rec[l]
 IsEvent(name) == l <= NRec /\ E.e = name /\ l' = l + 1
 
-RStart == IsEvent("rstart") /\ src' = E.src /\ pos' = 0 /\ pos0' = 0 /\ rfault' = FALSE /\ UNCHANGED <<want, delivered, wfault>>
-RCall  == IsEvent("rcall") /\ pos0' = pos /\ rfault' = FALSE /\ UNCHANGED <<src, pos, want, delivered, wfault>>
+RStart == IsEvent("rstart") /\ src' = E.src /\ pos' = 0 /\ pos0' = 0 /\ lend' = 0 /\ rfault' = FALSE /\ UNCHANGED <<want, delivered, wfault>>
+RCall  == IsEvent("rcall") /\ pos0' = pos /\ lend' = pos + Len(LineFrom(src, pos)) /\ rfault' = FALSE /\ UNCHANGED <<src, pos, want, delivered, wfault>>
 
-Line == LineFrom(src, pos0)
+Line == SubSeq(src, pos0 + 1, lend)
+\* identical consecutive read calls are recorded once with a count
+Times == IF "times" \in DOMAIN E THEN E.times ELSE 1
 
 ReadEv ==
     /\ IsEvent("read")
     /\ E.req >= 1
     /\ IF E.ret > 0
-       THEN /\ E.ret <= E.req /\ pos + E.ret <= Len(src)
-            /\ pos' = pos + E.ret
-            /\ pos' <= pos0 + Len(Line)                 \* not one byte beyond the first line feed
+       THEN /\ E.ret <= E.req /\ pos + E.ret * Times <= Len(src)
+            /\ pos' = pos + E.ret * Times
+            /\ pos' <= lend                            \* not one byte beyond the first line feed
             /\ UNCHANGED rfault
        ELSE /\ pos' = pos
             /\ rfault' = (rfault \/ E.ret = -2)
             /\ (E.ret = 0 => pos = Len(src))
-    /\ UNCHANGED <<src, pos0, want, delivered, wfault>>
+    /\ UNCHANGED <<src, pos0, lend, want, delivered, wfault>>
 
 RRet ==
     /\ IsEvent("rret")
     /\ IF rfault THEN E.res.kind = "io"                 \* a hard error surfaces as an I/O error
-       ELSE /\ pos = pos0 + Len(Line)                   \* the whole line was consumed ...
+       ELSE /\ pos = lend                               \* the whole line was consumed ...
             /\ E.res = Decode(Line)                     \* ... and the result is its decoding
     /\ E.left = Len(src) - pos                          \* trailing bytes stay in the stream
-    /\ UNCHANGED <<src, pos, pos0, rfault, want, delivered, wfault>>
+    /\ UNCHANGED <<src, pos, pos0, lend, rfault, want, delivered, wfault>>
 
 WStart == /\ IsEvent("wstart")
           /\ want' = EncodeNL(MkFrame(E.frame.addr, E.frame.type, E.frame.data))
           /\ delivered' = <<>> /\ wfault' = FALSE
-          /\ UNCHANGED <<src, pos, pos0, rfault>>
+          /\ UNCHANGED <<src, pos, pos0, lend, rfault>>
 
 WriteEv ==
     /\ IsEvent("write")
@@ -62,13 +65,13 @@ WriteEv ==
             /\ UNCHANGED wfault
        ELSE /\ delivered' = delivered
             /\ wfault' = (wfault \/ E.ret \in {0, -2})
-    /\ UNCHANGED <<src, pos, pos0, rfault, want>>
+    /\ UNCHANGED <<src, pos, pos0, lend, rfault, want>>
 
 WRet ==
     /\ IsEvent("wret")
     /\ IF wfault THEN E.res = "io"                      \* a refusing or failing sink surfaces as an I/O error
        ELSE E.res = "ok" /\ delivered = want            \* otherwise exactly the encoding with CR LF was delivered
-    /\ UNCHANGED <<src, pos, pos0, rfault, want, delivered, wfault>>
+    /\ UNCHANGED <<src, pos, pos0, lend, rfault, want, delivered, wfault>>
 
 Next == RStart \/ RCall \/ ReadEv \/ RRet \/ WStart \/ WriteEv \/ WRet
 Spec == Init /\ [][Next]_vars
